@@ -492,7 +492,7 @@ class HistogramND(HistogramBase):
         # TODO: inplace
         new_one = self.copy()
         axis_id = self._get_axis(axis)
-        new_one._frequencies = np.cumsum(new_one.frequencies, axis_id)
+        new_one.frequencies = np.cumsum(new_one.frequencies, axis_id)
         return new_one
 
     def projection(self, *axes: Axis, **kwargs) -> HistogramBase:
